@@ -446,6 +446,16 @@ def frames(ctx):
         'yatiml/representers.py::EnumRepresenter.__call__': set(),
         'yatiml/representers.py::UserStringRepresenter.__call__': set(),
         'yatiml/constructors.py::Constructor.__call__': set(),
+        'yatiml/recognizer.py::Recognizer.recognize': set(),
+        'yatiml/recognizer.py::Recognizer.__recognize_scalar': set(),
+        'yatiml/recognizer.py::Recognizer.__recognize_list': set(),
+        'yatiml/recognizer.py::Recognizer.__recognize_dict': set(),
+        'yatiml/recognizer.py::Recognizer.__recognize_union': set(),
+        'yatiml/recognizer.py::Recognizer.__recognize_user_class': set(),
+        'yatiml/recognizer.py::Recognizer.__recognize_user_classes': set(),
+        'yatiml/util.py::diagnose_missing_key': set(),
+        'yatiml/util.py::diagnose_extraneous_key': set(),
+        'yatiml/irecognizer.py::format_rec_error': set(),
     }
     owned = {'Loader': owned_attrs(ctx, 'yatiml/loader.py::Loader'),
              'Dumper': owned_attrs(ctx, 'yatiml/dumper.py::Dumper')}
